@@ -152,51 +152,56 @@ def build_harness(flavour, harness_src, name=None, with_malloc=False, extra_flag
     """extra_srcs: [(repo-relative or absolute source, [extra flags])] compiled with the flavour's flags and linked in"""
     """returns (binary path or None, log).  The binary lives in the cache, keyed by all its inputs."""
     os.makedirs(CACHE, exist_ok=True)
+    fl = FLAV[flavour]
+    name = name or os.path.basename(harness_src).replace(".cpp", "")
+    objs = []
+    # the lock only serialises the library build of a flavour (32 TUs on 16 cores); harness TUs and links
+    # write to unique temporary names and may run concurrently
     lock = open(os.path.join(CACHE, ".lock-" + flavour), "w")
     fcntl.flock(lock, fcntl.LOCK_EX)
     try:
-        fl = FLAV[flavour]
-        name = name or os.path.basename(harness_src).replace(".cpp", "")
-        objs = []
         if link_tbb:
             objs, log = tbb_objects(flavour, with_malloc)
             if objs is None:
                 return None, log
-        inc = ["-I", os.path.join(REPO, "include"), "-iquote", os.path.join(REPO, "src/tbb"), "-I", os.path.join(VERIF, "engine"),
-               "-DVERIF_REPO=\"%s\"" % REPO] + list(extra_flags)
-        hobj, log = compile_obj(flavour, harness_src, inc, "harness")
-        if hobj is None:
-            return None, log
-        link = list(objs) + [hobj]
-        for es, ef in extra_srcs:
-            esp = es if os.path.isabs(es) else os.path.join(REPO, es)
-            eo, log = compile_obj(flavour, esp, ["-I", os.path.join(REPO, "include"), "-I", os.path.join(VERIF, "engine")] + list(ef), "extra")
-            if eo is None:
-                return None, log
-            link.append(eo)
-        ldflags = ["-pthread", "-ldl", "-rdynamic"] + list(fl.get("link", []))
+        rt = None
         if fl["prelude"]:
             rt, log = rt_object(flavour)
             if rt is None:
                 return None, log
-            link.append(rt)
-            ldflags += ["-Wl,--wrap=free"]
-        if flavour == "tsan":
-            ldflags += ["-fsanitize=thread"]
-        key = sha(*sorted(link), " ".join(ldflags), " ".join(extra_link))
-        binp = os.path.join(CACHE, flavour, "%s-%s.bin" % (name, key))
-        if not os.path.exists(binp):
-            rc, log = run([fl["cxx"], "-o", binp + ".tmp"] + link + ldflags + list(extra_link))
-            if rc != 0:
-                return None, "LINK FAILED\n" + log[-4000:]
-            os.replace(binp + ".tmp", binp)
-        else:
-            os.utime(binp, None)
-        prune(flavour)
-        return binp, ""
     finally:
         fcntl.flock(lock, fcntl.LOCK_UN)
         lock.close()
+    inc = ["-I", os.path.join(REPO, "include"), "-iquote", os.path.join(REPO, "src/tbb"), "-I", os.path.join(VERIF, "engine"),
+           "-DVERIF_REPO=\"%s\"" % REPO] + list(extra_flags)
+    hobj, log = compile_obj(flavour, harness_src, inc, "harness")
+    if hobj is None:
+        return None, log
+    link = list(objs) + [hobj]
+    for es, ef in extra_srcs:
+        esp = es if os.path.isabs(es) else os.path.join(REPO, es)
+        eo, log = compile_obj(flavour, esp, ["-I", os.path.join(REPO, "include"), "-I", os.path.join(VERIF, "engine")] + list(ef), "extra")
+        if eo is None:
+            return None, log
+        link.append(eo)
+    ldflags = ["-pthread", "-ldl", "-rdynamic"] + list(fl.get("link", []))
+    if rt:
+        link.append(rt)
+        ldflags += ["-Wl,--wrap=free"]
+    if flavour == "tsan":
+        ldflags += ["-fsanitize=thread"]
+    key = sha(*sorted(link), " ".join(ldflags), " ".join(extra_link))
+    binp = os.path.join(CACHE, flavour, "%s-%s.bin" % (name, key))
+    if not os.path.exists(binp):
+        tmpb = binp + ".tmp%d" % os.getpid()
+        rc, log = run([fl["cxx"], "-o", tmpb] + link + ldflags + list(extra_link))
+        if rc != 0:
+            return None, "LINK FAILED\n" + log[-4000:]
+        os.replace(tmpb, binp)
+    else:
+        os.utime(binp, None)
+    prune(flavour)
+    return binp, ""
 
 
 if __name__ == "__main__":
